@@ -66,8 +66,15 @@ structure Snap where
   qa : Nat
 deriving Repr, Inhabited
 
+structure Worker where
+  thr : Nat
+  s : Nat
+  e : Nat     -- 0: thread function had not returned when the events were printed
+deriving Repr, Inhabited
+
 structure Hist where
   isPool : Bool := true
+  workers : Array Worker := #[]
   max : Nat := 1
   tasks : Array TaskH := #[]
   queries : Array Query := #[]     -- in loop-thread order
@@ -202,13 +209,28 @@ def checkOrder (h : Hist) : Except String Nat :=
           else if notWorse h b.k a then .ok (n + 1)
           else .error s!"pick order: task {b.k} (level {h.tasks[b.k]!.lvl}) was picked in ({lo},{b.s}) while task {a} (level {ta.lvl}, submitted at {ta.qa}) was waiting"
 
+/-- worker threads: every body ran inside the life of a recorded worker thread; after cleanup() returned no
+worker thread is alive ("joins every worker") -/
+def checkWorkers (h : Hist) : Option String :=
+  (firstSome h.bodies.toList fun b =>
+    match h.workers.find? (·.thr == b.thr) with
+    | none => some s!"task {b.k}: body ran on thread {b.thr} which is not a worker thread created by the pool"
+    | some w => if w.s < b.s && (w.e == 0 || b.e < w.e) then none
+                else some s!"task {b.k}: body ({b.s}..{b.e}) outside the life ({w.s}..{w.e}) of its worker thread") <|>
+  match h.cleanup with
+  | none => none
+  | some (_, qa) =>
+    firstSome h.workers.toList fun w =>
+      if w.e == 0 || w.e > qa then some s!"worker thread {w.thr} was still running when cleanup() returned at {qa} (its thread function returned at {w.e}): not joined"
+      else none
+
 def checkOverlap (h : Hist) : Option String :=
   firstSome h.bodies.toList fun b =>
     let n := (h.bodies.filter fun x => x.s < b.s && b.s < x.e).size + 1
     if n > h.max then some s!"{n} task bodies executing at once exceed the maximum of {h.max} workers" else none
 
 def check (h : Hist) : Except String Nat :=
-  match checkBodies h <|> checkCbs h <|> checkQueries h <|> checkSnaps h <|> checkOverlap h with
+  match checkBodies h <|> checkCbs h <|> checkQueries h <|> checkSnaps h <|> checkOverlap h <|> checkWorkers h with
   | some e => .error e
   | none => checkOrder h
 
